@@ -634,6 +634,19 @@ for s_i in range(2 if Q else 15):
     coeff = {k: [float(v) for v in rng.standard_normal(7)] for k in ("LL", "LT", "TL", "TT")}
     nmat = int(rng.integers(3, 12))
     mats = {k: rng.standard_normal((nmat, nmat)) + 1j * rng.standard_normal((nmat, nmat)) for k in coeff}
+    # memory layout of the matrices is not part of their meaning: C order, Fortran order, a transposed view,
+    # one frequency of an (n, n, numfreq) stack
+    for li_, k_ in enumerate(sorted(mats)):
+        lay = (s_i + li_) % 4
+        if lay == 1:
+            mats[k_] = np.asfortranarray(mats[k_])
+        elif lay == 2:
+            mats[k_] = np.ascontiguousarray(mats[k_].T).T
+        elif lay == 3:
+            stack = np.zeros((nmat, nmat, 2), complex)
+            stack[..., 1] = mats[k_]
+            mats[k_] = stack[..., 1]
+        chk.count(matrix_layout=["C", "F", "transposed view", "slice of a stack"][lay])
     funcs = {k: poly_S(c) for k, c in coeff.items()}
     tx, rx = (arim.ut.fmc(ne) if rng.random() < 0.5 else arim.ut.hmc(ne))
     a = float(rng.uniform(-np.pi, np.pi))
@@ -649,7 +662,7 @@ for s_i in range(2 if Q else 15):
             inc, out = tt[tx, :].T - a, tr[rx, :].T - a
             ref_f = funcs[key](inc, out) * qt[tx, :].T * qr[rx, :].T
             import arim.scat as _scat
-            ref_m = _scat.interpolate_matrix(mats[key])(inc, out) * qt[tx, :].T * qr[rx, :].T
+            ref_m = _scat.interpolate_matrix(np.array(mats[key], order="C"))(inc, out) * qt[tx, :].T * qr[rx, :].T
         evaluations += Pf.size + Pm.size
         nontrivial.add(("e2e", s_i, vn))
         chk.count(end_to_end_view=key)
@@ -663,6 +676,44 @@ for s_i in range(2 if Q else 15):
                               dict(view=vn, scat_key=key, cls=cls, point=int(g_), timetrace=int(k_), tx=tx, rx=rx, scat_angle=a,
                                    impl=P_[g_, k_] if P_.shape == ref.shape else None, expected=ref[g_, k_],
                                    frequency=setup["freq"], probe_locations=probe.locations.coords))
+
+# ---- (b0') the public multi-frequency entry point: every switch set reaches the ray weights unchanged ----------
+#      H(view) = conj( model_amplitudes_factory(tx, rx, view, ray_weights_for_views(<same switches>), S(f), a)[...] )
+import arim.scat as _scat2
+for s_i in range(3 if Q else 20):
+    setup = arimgen.immersion_setup(rng, max_refl=int(rng.integers(0, 2)), wall_points=80, numelements=int(rng.integers(2, 4)),
+                                    numscat=int(rng.integers(1, 4)), attenuation=True)
+    views, probe, block = setup["views"], setup["probe"], setup["block"]
+    ne = probe.numelements
+    tx, rx = (arim.ut.fmc(ne) if rng.random() < 0.5 else arim.ut.hmc(ne))
+    width = float(rng.uniform(0.2e-3, 1e-3))
+    a = float(rng.uniform(-np.pi, np.pi))
+    freqs = np.array([setup["freq"], setup["freq"] * 1.25])
+    for sw in [SWITCHES[int(i)] for i in rng.choice(np.arange(16), size=(4 if Q else 8), replace=False)]:
+        nang = int(rng.choice([0, 16]))
+        obj = _scat2.scat_factory("sdh", block, radius=float(rng.uniform(0.2e-3, 1e-3)))
+        tfs = {vn: tf for vn, (tf, _) in zip(views, bim.scat_unshifted_transfer_functions(
+            views, tx, rx, freqs, obj, probe_element_width=width, use_directivity=sw[0], use_transrefl=sw[1], use_beamspread=sw[2],
+            use_attenuation=sw[3], scat_angle=a, numangles_for_scat_precomp=nang, first_nonzero_freq_idx=0))}
+        chk.count(pipeline_switches=str(sw), pipeline_scattering=("matrices" if nang else "functions"))
+        for fi, f_ in enumerate(freqs):
+            rwf = bim.ray_weights_for_views(views, float(f_), width, use_directivity=sw[0], use_transrefl=sw[1], use_beamspread=sw[2],
+                                            use_attenuation=sw[3])
+            scattering = ({k: m[fi] for k, m in obj.as_multi_freq_matrices(freqs, nang).items()} if nang
+                          else obj.as_angles_funcs(float(f_)))
+            for vn in list(views)[:: (3 if Q else 1)]:
+                ref = np.conj(np.asarray(model.model_amplitudes_factory(tx, rx, views[vn], rwf, scattering, a)[...]))
+                got = tfs[vn][..., fi]
+                evaluations += ref.size
+                scale = float(np.nanmax(np.abs(ref))) if np.isfinite(ref).any() else 1.0
+                okm = np.isclose(got, ref, rtol=1e-10, atol=1e-12 * scale, equal_nan=True)
+                if got.shape != ref.shape or not okm.all():
+                    chk.violation("pipeline:switches", f"scat_unshifted_transfer_functions(view {vn}) is not the amplitude built from "
+                                  f"ray_weights_for_views with the same switches {dict(zip(('directivity', 'transrefl', 'beamspread', 'attenuation'), sw))}",
+                                  dict(view=vn, switches=sw, frequency=float(f_), numangles_for_scat_precomp=nang, scat_angle=a,
+                                       width=width, tx=tx, rx=rx, probe_locations=probe.locations.coords,
+                                       max_abs_diff=float(np.nanmax(np.abs(got - ref))) if got.shape == ref.shape else None))
+                    break
 
 ncases = 700 if Q else 6000
 a_lines, a_meta = [], []
